@@ -25,7 +25,8 @@ def gen_groups(res):
                                       locks=False, pad=[30, 70, 110])
             else:
                 ops = dmaplib.gen_seq(rng, "c04d%d" % sid, rng.randrange(3, 30), nkeys=rng.choice([1, 2, 3]),
-                                      short_ttl=(i % 3 == 0), evict_members=cfg["members"] if i % 3 == 0 else 0)
+                                      short_ttl=(i % 3 == 0), evict_members=cfg["members"] if i % 3 == 0 else 0,
+                                      past=0.25 if i % 3 == 1 else 0.0)
             scs.append({"id": sid, "ops": ops})
             sid += 1
         groups.append(({k: v for k, v in cfg.items() if not k.startswith("_")}, scs))
